@@ -157,6 +157,8 @@ pub struct State {
     last_error: Option<ErrorContext>,
     last_token: Option<Xsubstr>,
     pub(crate) about_to_stop: bool,
+    // the program that was running stopped with an error and has not been resumed or replaced
+    run_failed: bool,
     pub(crate) bitstr_mod: BitstrState,
     // d2 canvas
     pub(crate) d2: CellRef,
@@ -352,12 +354,13 @@ impl State {
     // The previous program stopped with an error: a new submission never
     // resumes (and so never re-executes) what was left of it.
     fn abandon_failed_run(&mut self) {
-        if self.nested.is_empty() && self.last_error.is_some() && self.is_running() {
+        if self.nested.is_empty() && self.run_failed && self.is_running() {
             self.ctx.ip = self.code.len();
             self.return_stack.truncate(self.ctx.rs_len);
             self.loops.truncate(self.ctx.ls_len);
             self.special.truncate(self.ctx.ss_ptr);
         }
+        self.run_failed = false;
     }
 
     fn build_from_file(&mut self, path: Xstr, mode: ContextMode) -> Xresult {
@@ -400,6 +403,9 @@ impl State {
             }
             Err(e) => {
                 self.discard_rejected_build(nested_len, input_len);
+                // nothing of the rejected source runs or stays: whatever was
+                // compiled before it and not yet run is still pending
+                self.run_failed = false;
                 Err(e)
             }
         }
@@ -952,9 +958,11 @@ impl State {
         while self.is_running() {
             self.fetch_and_run().map_err(|e| {
                 self.set_runtime_err_location(&e);
+                self.run_failed = true;
                 e
             })?;
         }
+        self.run_failed = false;
         OK
     }
 
@@ -1224,8 +1232,10 @@ impl State {
             self.clear_last_error();
             self.fetch_and_run().map_err(|e| {
                 self.set_runtime_err_location(&e);
+                self.run_failed = true;
                 e
             })?;
+            self.run_failed = false;
         }
         OK
     }
